@@ -38,7 +38,10 @@ Input classes added by the third seeding round: tangent vectors of Minkowski
 length 1e-9..1e-3 and 1e3..1e9 (alone or mixed in one composite) and targets of
 unit_tangent_towards 1e-9..1e-3 away, each followed by macroscopic requests
 (wl_tangent_scales, wl_towards_close; C13-r3-1); the n-sweep (wl_polygon_sweep;
-C13-r3-3).
+C13-r3-3).  Fourth round: the long range -- |t| in [6,11.5], pairs 7.5..10.5
+apart, circumradii 7..11.5 / interior angles down to 1e-5, alone or mixed with
+ordinary values in one composite (wl_long_range, wl_polygon_extreme; C13-r4-3);
+the postconditions judge circumradii up to 12 and far points down to 1 - r = 1e-13.
 """
 import math
 import traceback
@@ -59,7 +62,11 @@ RULE = ("cases = (dimension 2..5, composite shape in {(), (k,), (a,b), (a,1,c)},
         "from 1203..3000 thorough, radius and angle path), tangent vector length "
         "class {ordinary [0.2,5], tiny [1e-9,1e-6], small [1e-6,1e-3], huge "
         "[1e3,1e9], mixed per unit} given as data, target of unit_tangent_towards "
-        "at distance [1e-9,1e-3] followed by |t| in [0.3,3]); non-trivial = the point is not the origin / t != 0 / the "
+        "at distance [1e-9,1e-3] followed by |t| in [0.3,3], long range (|t| in "
+        "[6,9], [9,11.5] or mixed with [0.1,3] per unit from basepoints of Klein "
+        "radius <= 0.5 or the origin; pairs with d in [7.5,10.5]; polygons n in "
+        "{3..8,10,12,16,24,37,60} of circumradius [7,11.5] by radius or by the tiny "
+        "angle, scalar or next to ordinary parameters in one array)); non-trivial = the point is not the origin / t != 0 / the "
         "triangle is non-degenerate (sin A >= 1e-3, sides >= 0.05); distinct = "
         "distinct (check, dimension, shape kind, class, option) signatures.  "
         "Residuals: hyperbolic distance between obtained and expected point, "
@@ -72,7 +79,11 @@ ASSUMPTIONS = [
     "representatives and rescaling belong to C12)",
     "exactly parallel / antiparallel tangent vectors are a diagnostic class "
     "(the property does not speak of them)",
-    "angles within [1e-3, 1-1e-3] of the admissible range, |t| <= 6, radii <= 7",
+    "angles up to 1-1e-3 of the admissible range and down to 1e-3 of it or to "
+    "the angle of circumradius 12, |t| <= 11.5 with basepoint + |t| <= 12.1 from "
+    "the origin (1 - Klein radius of the far point >= 1e-13 in the postcondition), "
+    "radii <= 12: beyond, float64 homogeneous/Klein coordinates no longer "
+    "determine the point to better than ~0.2",
     "a tangent vector is compared up to a positive scalar together with the "
     "sign of its basepoint representative",
     "short / long tangent vectors are given as floating-point data (direction "
@@ -109,6 +120,14 @@ REQUIRED = [
 SHAPE_KINDS = ("()", "(k,)", "(a,b)", "(a,1,c)")
 VEC_TOL = 1e-9
 ISO_TOL = 1e-9
+# long range (fourth seeding round, C13-r4-3).  A point at distance rho from the
+# origin has 1 - (Klein radius) = omr ~ 2 e^{-2 rho}; float64 coordinates fix its
+# position up to ~eps/omr, so that every point tolerance of this module, 1e-7 +
+# 1e-11/omr, reaches 0.2 at rho = 12 and 10 at rho = 14: the checks keep their
+# power (a point that stops 0.75 short is seen) up to total distance ~12 from
+# the origin, and beyond 1e-13 nothing is judged.
+R_MAX = 12.0             # largest polygon circumradius judged (was 7)
+OMR_MIN = 1e-13          # point_along postcondition: smallest 1 - r of the far point
 
 
 def rand_shape(rng, kind):
@@ -501,6 +520,11 @@ def setup(run):
         with np.errstate(all="ignore"):
             unit = np.abs(rh.mink_sq(v) - 1.0) <= 1e-9 * np.sum(v * v, axis=-1)
         ok = r2.interior_mask(p, 1e-9) & spacelike_mask(v) & np.isfinite(T) & (np.abs(T) <= 20)
+        with np.errstate(all="ignore"):
+            far = r2.omr_far(r2.one_minus_r_proj(p), np.where(np.isfinite(T), T, 0.0)) >= OMR_MIN
+        if (ok & ~far).any():
+            m_pa.skip("far point beyond the float64 resolution of Klein coordinates (1 - r < 1e-13)")
+        ok &= far
         if (ok & ~unit).any():
             m_pa.skip("tangent vector not of unit length (property speaks of unit vectors)")
         ok &= unit
@@ -672,17 +696,19 @@ def setup(run):
                              {"n": n, "parameter": par, "ambient": amb()})
         pf = par.reshape(-1)
         if radius is not None:
-            ok = np.isfinite(pf) & (pf >= 1e-3) & (pf <= 7.0)
+            ok = np.isfinite(pf) & (pf >= 1e-3) & (pf <= R_MAX)
             R = pf
             a = r2.polygon_angle_ref(n, np.where(ok, pf, 1.0))
             slack = np.ones_like(pf)
             how = "radius"
         else:
             frac = pf / r2.max_angle(n)
-            ok = np.isfinite(pf) & (frac >= 1e-3) & (frac <= 1 - 1e-3)
+            # admissible with margin at the upper end; at the lower end (nearly
+            # ideal polygons) bounded by the circumradius, not by the angle
+            ok = np.isfinite(pf) & (pf > 0) & (frac <= 1 - 1e-3)
             a = pf
             R = r2.polygon_radius_ref(n, np.where(ok, pf, r2.max_angle(n) / 2))
-            ok &= R <= 7.0
+            ok &= R <= R_MAX
             slack = 1.0 / np.where(ok, 1.0 - frac, 1.0)
             how = "angle"
         if (~ok).any():
@@ -724,12 +750,16 @@ def setup(run):
             return m_pf.skip("regular_polygon_radius: non-numeric / non-broadcastable arguments")
         n, a, res = st
         frac = a / ((n - 2) * math.pi / np.maximum(n, 1))
-        ok = np.isfinite(a) & (n >= 3) & (frac >= 1e-3) & (frac <= 1 - 1e-3)
+        ok = np.isfinite(a) & (n >= 3) & (a > 0) & (frac <= 1 - 1e-3)
+        with np.errstate(all="ignore"):
+            ref = r2.polygon_radius_ref(np.where(ok, n, 3), np.where(ok, a, 0.5))
+        # lower end: 1e-3 of the admissible range as before, or any smaller
+        # angle whose circumradius is <= 14 (nearly ideal polygons)
+        ok &= (frac >= 1e-3) | (ref <= 14.0)
         if (~ok).any():
             m_pf.skip("regular_polygon_radius: angle outside the admissible range (with margin)")
         if not ok.any():
             return
-        ref = r2.polygon_radius_ref(np.where(ok, n, 3), np.where(ok, a, 0.5))
         tol = 1e-9 * (1.0 + ref) / np.where(ok, 1.0 - frac, 1.0)
         judge_rows(m_pf, np.abs(res - ref), tol, ok, "polygon-formulas/regular_polygon_radius",
                    "regular_polygon_radius(n, a) differs from cosh R = cot(pi/n) cot(a/2)",
@@ -1168,6 +1198,209 @@ def wl_towards_close(run, rng, idx):
                "p.unit_tangent_towards(q).isometry_to(tv2) @ p is not the basepoint of tv2",
                lambda w: dict(case, row=w, image_klein=flat(ik)[w], expected_klein=flat(kq2)[w]))
     run.note_class("towards-close", d, kind, ccls, mp, mq)
+
+
+# ---------------------------------------------------------------------------
+# long range: distances 6..12 (fourth seeding round, C13-r4-3)
+
+LONG_T = {"long": (6.0, 9.0), "very-long": (9.0, 11.5)}
+LONG_CLASSES = ("long", "very-long", "mixed-range", "far-pair")
+
+
+def rand_long_t(rng, shape, tcls):
+    """|t| log-uniform in the class range, random sign; 'mixed-range': per
+    unit ordinary [0.1,3], long or very long (a distance that is clipped or
+    saturated only beyond a threshold sits next to ordinary ones)."""
+    shape = tuple(shape)
+    if tcls == "mixed-range":
+        pick = rng.integers(0, 3, size=shape)
+        lo = np.array([0.1, 6.0, 9.0])[pick]
+        hi = np.array([3.0, 9.0, 11.5])[pick]
+    else:
+        lo, hi = LONG_T[tcls]
+    return rng.uniform(lo, hi, size=shape) * rng.choice([-1.0, 1.0], size=shape)
+
+
+def wl_long_range(run, rng, idx):
+    """'all distances t in a bounded range' and 'all point pairs': the bounded
+    range of the earlier workloads ended at |t| = 6 and pairs at d ~ 7.  Here
+    |t| in [6, 11.5] from basepoints within Klein radius 0.5 (scalar, per unit,
+    or mixed with ordinary distances in one composite), and pairs p near the
+    origin, q at distance 7.5..10.5 from it, in every construction model.
+    Tolerance as everywhere, 1e-7 + 1e-11/omr_far with omr_far = 1 - (Klein
+    radius) of the far point ~ 2 e^{-2(rho_p + |t|)}: the pinned tree stays
+    below 3e-16/omr_far up to |t| = 15, the tolerance is 0.13 at rho_p + |t| =
+    12.  C13-r4-3 (hyp_to_affine_dist clipped to 1 - 1e-6: every walk stops at
+    distance 7.254) is off by |t| - 7.254."""
+    from geometry_tools.hyperbolic import Point, TangentVector
+    mon = run.monitor("geodesic")
+    tcls = LONG_CLASSES[idx % 4]
+    d = 2 + (idx // 4) % 4
+    kind = SHAPE_KINDS[(idx // 16) % 4] if tcls != "mixed-range" else SHAPE_KINDS[1 + (idx // 16) % 3]
+    shape = rand_shape(rng, kind)
+    if tcls == "mixed-range" and int(np.prod(shape)) < 3:
+        shape = (4,)
+    near0 = (idx // 8) % 3 == 2                  # basepoint exactly at the origin
+    kp = r2.rand_klein(rng, d, shape, "bulk") * (0.0 if near0 else 0.5 / 0.95)
+    omr_p = r2.one_minus_r_klein(kp)
+    tag = "/" + tcls
+    if tcls != "far-pair":
+        scalar_t = bool((idx // 2) % 2) and tcls != "mixed-range"
+        Pp = rh.klein_to_proj(kp) * np.exp(rng.uniform(-1, 1, size=tuple(shape) + (1,)))
+        wp, vp = rand_tangent(rng, Pp, "tangent")
+        t = rand_long_t(rng, (), tcls) if scalar_t else rand_long_t(rng, tuple(shape), tcls)
+        case = {"dimension": d, "shape": list(shape), "t_class": tcls, "scalar_t": scalar_t,
+                "p": Pp, "v": vp, "t": t}
+        run.current_case = case
+        tv = TangentVector(Point(Pp.copy()), vp.copy()).normalized()
+        X = tv.point_along(float(t) if scalar_t and idx % 3 == 0 else np.array(t))
+        xk = np.asarray(X.coords("klein"), dtype=float)
+        if not mon.require(xk.shape == kp.shape, "geodesic/point_along/shape",
+                           "point_along gives Klein shape %r for a composite of shape %r"
+                           % (xk.shape, shape), case):
+            return
+        T = np.broadcast_to(t, tuple(shape))
+        ct = r2.coord_tol(r2.omr_far(omr_p, T))
+        dd = r2.dist_klein_ref(xk, kp)
+        judge_rows(mon, np.abs(dd - np.abs(T)), ct, None, "geodesic/point_along/distance" + tag,
+                   "point_along(t) is not at reference distance |t| from the basepoint",
+                   lambda w: dict(case, row=w, t_row=np.reshape(T, -1)[w], distance=np.reshape(dd, -1)[w]))
+        exp = rh.exp_map(Pp, wp, T)
+        judge_rows(mon, r2.dist_klein_ref(xk, exp), ct, None, "geodesic/point_along/position" + tag,
+                   "point_along(t) is not the point at signed arc length t on the geodesic",
+                   lambda w: dict(case, row=w, t_row=np.reshape(T, -1)[w], klein=flat(xk)[w],
+                                  expected=flat(exp)[w]))
+        # the same observable without any subtraction of nearly equal numbers:
+        # for a basepoint at the origin 1 - |x| = 2/(1 + e^{2|t|}) (relative)
+        if near0:
+            omr_x = r2.one_minus_r_klein(xk)
+            want = 2.0 / (1.0 + np.exp(2.0 * np.abs(T)))
+            judge_rows(mon, np.abs(np.log(omr_x / want)), 2 * ct, None,
+                       "geodesic/point_along/boundary-gap" + tag,
+                       "point_along(t) from the origin: 1 - (Klein radius) is not 2/(1 + e^{2|t|}) "
+                       "(|log ratio| = twice the error of the distance)",
+                       lambda w: dict(case, row=w, t_row=np.reshape(T, -1)[w],
+                                      one_minus_r=np.reshape(omr_x, -1)[w],
+                                      expected=np.reshape(want, -1)[w]))
+        run.note_class("long-range", d, kind, tcls, scalar_t, near0)
+        return
+    # far-apart pair: q = exp_p(dq w), dq in [7.5, 10.5] (q keeps a margin of
+    # 1e-9 |q|^2 inside the light cone, the domain of the postcondition)
+    Pp0 = rh.klein_to_proj(kp)
+    w0, _ = rand_tangent(rng, Pp0)
+    dq = rng.uniform(7.5, 10.5 - 0.55, size=tuple(shape))
+    kq = rh.exp_map(Pp0, w0, dq)
+    case = {"dimension": d, "shape": list(shape), "pair_class": "far-pair", "klein_p": kp,
+            "klein_q": kq, "separation": dq}
+    run.current_case = case
+    P, mp = lib_point(kp, rng)
+    Q, mq = lib_point(kq, rng)
+    case["models"] = [mp, mq]
+    dref = r2.dist_klein_ref(kp, kq)             # what the coordinates of q say
+    u = P.unit_tangent_towards(Q)
+    ak = np.asarray(u.point_along(dref).coords("klein"), dtype=float)
+    if not mon.require(ak.shape == kp.shape, "geodesic/point_along/shape",
+                       "point_along gives Klein shape %r for a composite of shape %r" % (ak.shape, shape),
+                       case):
+        return
+    ct = r2.coord_tol(r2.omr_far(omr_p, dref))
+    judge_rows(mon, r2.dist_klein_ref(ak, kq), ct, None, "geodesic/towards/arrival" + tag,
+               "following p.unit_tangent_towards(q) for d(p,q) does not arrive at q",
+               lambda w: dict(case, row=w, arrival=flat(ak)[w], q=flat(kq)[w], d=np.reshape(dref, -1)[w]))
+    # the point three quarters of the way: 3d/4 from p, d/4 from q (the first
+    # half of such a walk is short enough to hide a saturation at ~7)
+    part = np.asarray(u.point_along(0.75 * dref).coords("klein"), dtype=float)
+    e = np.abs(r2.dist_klein_ref(part, kq) - 0.25 * dref) + np.abs(r2.dist_klein_ref(part, kp) - 0.75 * dref)
+    judge_rows(mon, e, 2 * ct, None, "geodesic/towards/three-quarters" + tag,
+               "the point at 3/4 d(p,q) towards q is not at distance 3d/4 from p and d/4 from q",
+               lambda w: dict(case, row=w, point=flat(part)[w]))
+    run.note_class("long-range", d, kind, tcls, mp, mq)
+
+
+EXTREME = ("large-radius", "tiny-angle", "mixed-radius", "tiny-angle-array")
+
+
+def wl_polygon_extreme(run, rng, idx):
+    """nearly ideal regular polygons: circumradius 7..11.5, requested by radius
+    or by the (tiny: 1e-5 .. 7e-3 rad) interior angle, scalar or in one array
+    together with ordinary parameters; and the radius/angle formulas at these
+    extremes.  Expected radius / side with the usual (1 + R)(1e-7 + 1e-11/omr);
+    interior angle additionally *relative* to the angle: 1e-5 + 1e-18/omr^2 (the
+    reference angle of two tangents that differ by a from coordinates of size
+    cosh R; pinned tree 5e-22/omr^2) -- the absolute tolerance 1e-10/omr of
+    polygon_report exceeds a tiny angle itself beyond R ~ 9.
+    C13-r4-3: vertices at distance 7.254 instead of R."""
+    from geometry_tools.hyperbolic import Polygon
+    from geometry_tools import hyperbolic as H
+    mon = run.monitor("polygon")
+    ecls = EXTREME[idx % 4]
+    n = (3, 4, 5, 6, 7, 8, 10, 12, 16, 24, 37, 60)[(idx // 4) % 12]
+    dim = 2 if (idx // 3) % 2 == 0 else 2 + (idx // 6) % 4
+    amax = r2.max_angle(n)
+    array = ecls in ("mixed-radius", "tiny-angle-array")
+    shape = (int(rng.integers(2, 5)),) if array else ()
+    Rbig = rng.uniform(7.0, 11.5, size=shape)
+    if array:
+        # ordinary and extreme parameters side by side
+        Rbig = np.where(rng.random(size=shape) < 0.5, Rbig, rng.uniform(0.3, 5.0, size=shape))
+        Rbig[0] = rng.uniform(7.5, 11.0)
+    by = "radius" if ecls in ("large-radius", "mixed-radius") else "angle"
+    if by == "radius":
+        par, R, a = Rbig, Rbig, r2.polygon_angle_ref(n, Rbig)
+    else:
+        par = r2.polygon_angle_ref(n, Rbig)          # the tiny angle, as data
+        R, a = r2.polygon_radius_ref(n, par), par
+    case = {"n": n, "by": by, "dimension": dim, "shape": list(shape), "parameter": par,
+            "class": ecls}
+    run.current_case = case
+    kw = {by: (float(par) if idx % 2 else np.array(par)) if not shape else np.array(par)}
+    if dim != 2 or idx % 2:
+        kw["dimension"] = dim
+    poly = Polygon.regular_polygon(n, **kw)
+    vk = np.asarray(poly.get_vertices().coords("klein"), dtype=float)
+    if not mon.require(vk.shape == tuple(shape) + (n, dim), "polygon/vertices-shape",
+                       "get_vertices().coords('klein') has shape %r, expected %r"
+                       % (vk.shape, tuple(shape) + (n, dim)), case):
+        return
+    V = flat(rh.klein_to_proj(vk), 2)
+    Rf = np.reshape(R, -1).astype(float)
+    af = np.reshape(a, -1).astype(float)
+    slack = 1.0 / (1.0 - af / amax) if by == "angle" else np.ones_like(af)
+    rep = polygon_report(V, n, Rf, af)
+    what = {"radius": "vertices are not equidistant from the origin at the expected radius",
+            "sides": "sides are not of the regular n-gon's length",
+            "angle": "interior angle differs", "planar": "vertices do not span a 2-plane"}
+    witness = lambda w: dict(case, row=w, expected_radius=Rf[w], expected_angle=af[w],
+                             vertices_klein=klein_of(V[w]))
+    for name, (err, tol) in rep.items():
+        judge_rows(mon, err, tol * slack, None, "polygon/%s/by-%s/%s" % (name, by, ecls), what[name],
+                   witness)
+    omr = 1.0 - np.tanh(Rf)
+    judge_rows(mon, rep["angle"][0] / af, np.minimum(rep["angle"][1] / af, 1e-5 + 1e-18 / omr ** 2) * slack,
+               None, "polygon/angle-relative/by-%s/%s" % (by, ecls),
+               "interior angle differs from the requested / expected angle (relative to the angle)",
+               witness)
+    ds = r2.dist_klein_ref(klein_of(V), np.roll(klein_of(V), -1, axis=-2))
+    d0 = r2.dist_klein_ref(klein_of(V), np.zeros_like(klein_of(V)))
+    ct = r2.coord_tol(omr)
+    judge_rows(mon, np.ptp(d0, axis=-1), 2 * ct * (1 + Rf), None, "polygon/equidistant/" + ecls,
+               "vertices are not at equal distance from the origin", witness)
+    judge_rows(mon, np.ptp(ds, axis=-1), 4 * ct * (1 + Rf), None, "polygon/equal-sides/" + ecls,
+               "sides are not of equal length", witness)
+    # the formulas at the same extremes (values by the postconditions; here: inverses)
+    case2 = {"n": n, "radius": Rf, "angle": af, "class": ecls}
+    run.current_case = case2
+    A = np.asarray(H.polygon_interior_angle(n, Rf.copy()), dtype=float)
+    rb = np.asarray(H.regular_polygon_radius(n, A), dtype=float)
+    judge_rows(mon, np.abs(rb - Rf), 1e-9 * (1 + Rf), None, "polygon/inverse/radius(angle(r))/" + ecls,
+               "regular_polygon_radius(n, polygon_interior_angle(n, r)) != r",
+               lambda w: dict(case2, row=w, back=rb[w]))
+    Rr = np.asarray(H.regular_polygon_radius(n, af.copy()), dtype=float)
+    ab = np.asarray(H.polygon_interior_angle(n, Rr), dtype=float)
+    judge_rows(mon, np.abs(ab - af) / af, 1e-9 * slack, None, "polygon/inverse/angle(radius(a))/" + ecls,
+               "polygon_interior_angle(n, regular_polygon_radius(n, a)) != a (relative to a)",
+               lambda w: dict(case2, row=w, back=ab[w]))
+    run.note_class("polygon-extreme", n, by, dim, ecls)
 
 
 T_CLASSES = ("zero", "tiny", "moderate", "large")
@@ -1635,5 +1868,7 @@ WORKLOADS = [
     Workload("angle", wl_angle, quick=96, thorough=11520),
     Workload("polygon", wl_polygon, quick=132, thorough=9504),
     Workload("polygon-sweep", wl_polygon_sweep, quick=100, thorough=348),
+    Workload("long-range", wl_long_range, quick=96, thorough=11520),
+    Workload("polygon-extreme", wl_polygon_extreme, quick=96, thorough=5760),
     Workload("formulas", wl_formulas, quick=66, thorough=4752),
 ]
